@@ -199,6 +199,7 @@ class FuncContract:
         self.mode = "lia"
         self.requires = []   # (label, ast, text)
         self.ensures = []
+        self.ensures_body = []  # checked when the body is verified, never assumed by callers (may name locals)
         self.assigns = None  # list of ast, or None (= nothing may be assigned: pure)
         self.loops = {}      # K -> dict(invariant=[(label,ast,text)], modifies=[ast], decreases=ast, var=name)
         self.other = []      # (kind, text)
@@ -321,6 +322,9 @@ def parse_file(path, pkg, C):
                 elif kw == "ensures":
                     lab, e = split_label(rest)
                     fc.ensures.append((lab, parse_expr(e), e))
+                elif kw == "ensuresbody":
+                    lab, e = split_label(rest)
+                    fc.ensures_body.append((lab, parse_expr(e), e))
                 elif kw == "lemma":
                     lab, e = split_label(rest)
                     fc.lemmas.append((lab, parse_expr(e), e))
